@@ -64,6 +64,7 @@ pub fn hist_case(name: &str, cfg: CfgSpec, steps: Vec<H>) -> Case {
                     step::prove(f, &label, c);
                 }
                 step::claim(f, "C10:a newly instantiated contract is halted", sn.cfg.stopped);
+                step::claim(f, "C12:a new staking contract has its instantiator as admin and no pending nomination or lock", sn.admin.as_deref() == Some(who.admin.as_str()) && sn.pending_owner.is_none() && sn.min_time.is_none());
                 step::claim(f, "C19:instantiate created the LST denom", b.chain.w.created.iter().any(|(s, d)| *s == who.contract && d == crate::addr::SUBDENOM));
             }
             let mut trace = vec![];
